@@ -13,19 +13,28 @@
  * forks a grandchild per element.  The vx slot is shared memory, so vx_fail/vx_obs/vx_count of the grandchild land
  * in the batch child's record. */
 unsigned vm_elem_alarm_s = 20;
-int vm_run_isolated (void (*fn) (long), long idx) {
+static int run_once (void (*fn) (long), long idx, unsigned alarm_s) {
   fflush (0);
   pid_t pid = fork ();
-  if (pid < 0) { vx_fail ("VM-HARNESS:fork", "fork failed"); return -1; }
+  if (pid < 0) return -1;
   if (pid == 0) {
     prctl (PR_SET_PDEATHSIG, SIGKILL);
-    alarm (vm_elem_alarm_s);
+    alarm (alarm_s);
     fn (idx);
     fflush (0);
     syscall (SYS_exit_group, 0);
   }
   int st = 0;
   while (waitpid (pid, &st, 0) < 0) {}
+  return st;
+}
+
+int vm_run_isolated (void (*fn) (long), long idx) {
+  int st = run_once (fn, idx, vm_elem_alarm_s);
+  if (st == -1) { vx_fail ("VM-HARNESS:fork", "fork failed"); return -1; }
+  /* an element that ran out of time is run once more, alone in its batch slot and with 15x the time, before it is called a hang
+   * (elements take milliseconds; on a loaded machine a process can be stalled for seconds) */
+  if (WIFSIGNALED (st) && WTERMSIG (st) == SIGALRM) st = run_once (fn, idx, vm_elem_alarm_s * 15);
   vx_scan_now ();
   if (WIFSIGNALED (st)) {
     char key[80];
